@@ -134,6 +134,8 @@ class Batch:
         except (KeyError, TypeError, ValueError):
             o["nthreads"] = 0
             o["frames"] = 0
+        o["nerr"] = len((obs or {}).get("errors") or [])
+        o["nwarn"] = len((obs or {}).get("warnings") or [])
         o["canB"] = bool(obs and obs.get("can"))
         o["nch"] = len(obs.get("choices", [])) if obs else 0
         pf = {}
@@ -212,7 +214,7 @@ class Batch:
 
     # ---------------------------------------------------------------- probed runs
     def start_case(self, key, info, cmp=None, cmpall=None, pf=False, cmpcb=True, cmpval=True, cmpsave=True,
-                   cmpres=True, chk11=False, chk12="", chk13=False, probed=False):
+                   cmpres=True, chk11=False, chk12="", chk13="", probed=False):
         self.ncases += 1
         self.cases[self.ncases] = dict(key=key, info=info)
         self.rich = bool(chk11 or chk12 or chk13)
